@@ -140,7 +140,7 @@ func gen(t *rapid.T, o GenOpts) Generated {
 		colTypes = []byte("nnnnnaapl")
 	}
 	for i := 0; i < nIdb; i++ {
-		ar := rapid.SampledFrom([]int{1, 1, 2, 2, 2, 3}).Draw(t, "idbArity")
+		ar := rapid.SampledFrom([]int{1, 1, 2, 2, 2, 3, 0}).Draw(t, "idbArity")
 		cols := ""
 		for c := 0; c < ar; c++ {
 			cols += string(rapid.SampledFrom(colTypes).Draw(t, "idbCol"))
